@@ -144,8 +144,9 @@ class CountMinSketch(FrequencySketch[T]):
 
     def _hash(self, item: T, row: int) -> int:
         """Hash an item to a column index for a specific row."""
-        # Combine item hash with row-specific seed
-        item_hash = hash(item)
+        # Combine item hash with row-specific seed. The builtin hash() of str/bytes
+        # changes with PYTHONHASHSEED; hash repr(item) like the other sketches do.
+        item_hash = struct.unpack(">Q", hashlib.sha256(repr(item).encode("utf-8")).digest()[:8])[0]
         combined = item_hash ^ self._hash_seeds[row]
         # Mask to 64 bits to avoid overflow in struct.pack
         combined = combined & 0xFFFFFFFFFFFFFFFF
